@@ -51,6 +51,9 @@ def resolver_checks(ctx, f, mode):
         """every path from tgt to a return constructs an Err first."""
         return bool(errs) and f.must_pass(errs, tgt, rets)
     # --- ParentDir
+    if not hasattr(ctx, 'pd_predicates'):
+        ctx.pd_predicates = {}      # closure path -> resolver whose refusal it feeds
+
     def is_pd_any(g, a):
         """`components().any(|c| matches!(c, Component::ParentDir))` in g."""
         o = g.origin(a.args[1]) if len(a.args) > 1 else None
@@ -60,6 +63,8 @@ def resolver_checks(ctx, f, mode):
             return False
         comp = any('std::path::Component' in l['ty'] for l in cf.locals)
         pd_switch = any(('3' in ts) for (bi, on, ts, els) in switches(cf))
+        if comp and pd_switch:
+            ctx.pd_predicates.setdefault(cdef, f.path)
         return comp and pd_switch
     tests = [a for a in f.calls(r'Iterator::any$|::any$') if is_pd_any(f, a)]
     # the same predicate extracted into a private helper `fn(&Path) -> bool` whose result is the any(..) itself
@@ -185,6 +190,20 @@ def run(ctx):
     ctx.ob('C13.2', 'workspace', 'sinks-examined', True, '%d sink operands in tool / workspace / task / checkpoint code examined, taint fixpoint in %d rounds' % (nsinks, T.rounds))
 
     c134(ctx)
+    # ---------------------------------------------------------------- C13.5
+    ctx.rule('C13.5', '`..` is only ever refused, never normalised away: every function of the workspace that distinguishes Component::ParentDir (a switch on a path component with an arm for it) is one of the predicates whose true result C13.1 proved to lead to a refusal. A helper that pops / skips / rewrites `..` ("lexical cleaning", de-duplication of spellings) launders a path before a resolver sees it: `../a.txt` arrives as `a.txt`.')
+    npd = 0
+    for p_, g in sorted(P.fns.items()):
+        if not g.crate.startswith('rip'):
+            continue
+        for (bi, on, ts, els) in switches(g):
+            o = g.origin(on)
+            if o[0] == 'rv' and o[1]['k'] == 'discr' and 'std::path::Component' in g.lty(o[1]['pl']['l']) and '3' in ts:
+                npd += 1
+                ok = p_ in ctx.pd_predicates
+                ctx.ob('C13.5', g, 'parent-dir-only-refused', ok, 'Component::ParentDir is distinguished here %s' % ('as the refusing predicate of %s' % ctx.pd_predicates.get(p_, '?').rsplit('::', 1)[-1] if ok else
+                       'OUTSIDE the refusing resolvers: `..` segments are handled (dropped / popped / rewritten) instead of refused'), line=g.blocks[bi]['t'].get('ln'))
+    ctx.floor('C13.5', 'functions distinguishing Component::ParentDir', npd, 5)
     # ---------------------------------------------------------------- C13.3
     handlers = {'rip_tools::builtins::read::run_read': 'path', 'rip_tools::builtins::write::run_write': 'path', 'rip_tools::builtins::ls::run_ls': 'path',
                 'rip_tools::builtins::grep::run_grep': 'path'}
